@@ -234,6 +234,40 @@ pub fn scenarios(prop: &str, tier: &str) -> Vec<Scenario> {
                 out.push(sc);
             }
         }
+        if prop == "C01" {
+            // a start the checker accepts but the space bounds reject, with a small obstacle sitting exactly
+            // where the bounds would put that start if it were "repaired": whatever state heads the path has
+            // been validated
+            if let Some((spec, start)) = out_of_bounds_start(&b) {
+                let shift = |v: &crate::kit::V| -> crate::kit::V {
+                    use crate::kit::V;
+                    match v {
+                        V::Rv(x) => {
+                            let mut x = x.clone();
+                            x[0] += 0.25;
+                            V::Rv(x)
+                        }
+                        V::So2(a) => V::So2(a + 0.125),
+                        V::Cmp(c) => {
+                            let mut c = c.clone();
+                            if let V::Rv(x) = &mut c[0] {
+                                x[0] += 0.25;
+                            }
+                            V::Cmp(c)
+                        }
+                        other => other.clone(),
+                    }
+                };
+                let proj = shift(&start);
+                for pk in Pk::ALL {
+                    let w = b.world_named("obstacle-at-the-projected-start", vec![ObstSpec::Ball(proj.clone(), 0.02 * crate::refspace::lvs(&spec))]); // thinner than one step of a motion check
+                    let mut sc = b.scenario(w, b.params(pk, if pk == Pk::Prm { 1.6 } else { 1.0 }, 1.5, 0.0), &format!("C01/{kit}/{}/start-outside-bounds-obstacle-at-projection", pk.name()));
+                    sc.spec = spec.clone();
+                    sc.start = start.clone();
+                    out.push(sc);
+                }
+            }
+        }
         if prop == "C02" {
             // a start the checker accepts but the space bounds reject: the path still begins at exactly
             // that state (the planners must not "repair" the user's start)
